@@ -131,6 +131,9 @@ def catalogue():
         ("closure unknown return hint", "(fun(): NoSuchType { 106 })()", True),
         ("method unknown param hint", "107.bad_meth(108)", True), ("method unknown return hint", "109.bad_meth_ret()", True),
         ("let unknown hint arg", "let uh2: List<NoSuchType> = [110]", True),
+        ("dict non-string key", 'Dict["a" => 111, 112 => 113]', True), ("dict first key", "Dict[114 => 115]", True),
+        ("dict value error", 'Dict["k" => 116 / 0]', True), ("list elem error 2nd", "[117, 118 / 0, 119]", True),
+        ("struct field error", 'Point{ x: 120 / 0, label: "l" }', True), ("tuple first error", "(121 / 0, 122)", True),
     ]
     return sites
 
